@@ -40,15 +40,18 @@ package strategy
 //@ func cleanupPods
 //@   trusted
 //@   logs
+//@   ensures only-deletes: forall k int :: lognew(k) ==> logverb(k) == "Delete"
 //@   requires status != nil
 //@   modifies status.Conditions, elems(status.Conditions)
 //@ func deletePodLabel
 //@   trusted
 //@   logs
+//@   ensures only-patches: forall k int :: lognew(k) ==> logverb(k) == "Patch" && logobj(k) != nil
 //@   modifies nothing
 //@ func addPodLabel
 //@   trusted
 //@   logs
+//@   ensures only-patches: forall k int :: lognew(k) ==> logverb(k) == "Patch" && logobj(k) != nil
 //@   modifies nothing
 //@
 //@ func ManageDeployment
@@ -60,6 +63,8 @@ package strategy
 //@   requires forall i int :: 0 <= i && i < len(params.UnscheduledPods) ==> params.UnscheduledPods[i] != nil
 //@   modifies params.NewStatus.Conditions, elems(params.NewStatus.Conditions), mapof(params.PodByNodeName)
 //@   ensures result != nil && fresh(result)
+//@   ensures [C12] canary-label-list-is-restricted-to-the-namespace: forall k int :: lognew(k) && logverb(k) == "List" ==>
+//@             lognamespaced(k) && logns(k) == params.Replicaset.ObjectMeta.Namespace
 //@   ensures [C08] paused-flag: result.IsPaused <==> eds.IsRollingUpdatePaused(daemonset.ObjectMeta.Annotations)
 //@   ensures [C08] frozen-flag: result.IsFrozen <==> eds.IsRolloutFrozen(daemonset.ObjectMeta.Annotations)
 //@   ensures [C08] paused-or-frozen-no-update-delete: result.IsPaused || result.IsFrozen ==> len(result.PodsToDelete) == 0
@@ -94,7 +99,8 @@ package strategy
 //@             && params.PodByNodeName[allPodToDelete[j]] != nil
 //@             && params.PodByNodeName[allPodToDelete[j]].ObjectMeta.DeletionTimestamp == nil
 //@             && !compareCurrentPodWithNewPod(params, params.PodByNodeName[allPodToDelete[j]], allPodToDelete[j])
-//@   loop 3 invariant true
+//@   loop 3 invariant forall k int :: old(loglen()) <= k && k < loglen() && logverb(k) == "List" ==>
+//@             lognamespaced(k) && logns(k) == params.Replicaset.ObjectMeta.Namespace
 //@
 //@ func ManageUnknown
 //@   requires params != nil && params.NewStatus != nil
